@@ -573,6 +573,9 @@ func (reg typeRegistry) characterizeFuncDetails(fm *provider, cc charContext) (*
 		}
 	} else {
 		v := reflect.ValueOf(fm.fn)
+		if v.Kind() == reflect.Func && v.IsNil() {
+			return nil, fm.errorf("is a nil function")
+		}
 		var isNil bool
 		//nolint:exhaustive // on purpose
 		switch v.Type().Kind() {
